@@ -8,7 +8,8 @@
    [Repaired] alone.  [fixed var] = persist-before-swap and atomic Set are repaired; theorems are stated for
    every such variant, clauses that depend on a later fix carry its flag as a hypothesis (true of [Repaired]).
    "Reachable" means: reachable from an initial state by a history of northbound operations
-   ([forallb plain ops]: Create, Close, Delete, Set, Commit, Rollback-to-version, time).  LoadConfig and the
+   and administrative methods ([forallb inv_ok ops]: Create, Close, Delete, Set, Commit, Rollback-to-version,
+   time, SaveStartup, ResetForRecovery, ReloadFRR).  LoadConfig and the
    start-up path (ApplyLoadedConfig) replace the whole candidate / alias it with running by design; they
    are operations of the model and of the correspondence, and the theorems that do not need reachability
    (C13_atomic, C13_commit_validates, C13_create_granted, the call-stream theorems) cover them. *)
@@ -24,7 +25,7 @@ Print Assumptions C13_head_is_fixed.
    the lock, its configuration OBJECT is neither the running nor the startup object, its candidate agrees
    with running outside the paths it set *)
 Theorem C13_reachable_invariant :
-  forall var reg g r shared ops, fixed var -> forallb plain ops = true ->
+  forall var reg g r shared ops, fixed var -> forallb inv_ok ops = true ->
   Inv (run var reg g (init_state_gen r shared) ops).
 Proof. intros. apply inv_run; auto. apply inv_init. Qed.
 Print Assumptions C13_reachable_invariant.
@@ -82,7 +83,7 @@ Print Assumptions C13_apply_stream.
    configuration, and the new running configuration differs from the previous one only at leaves whose path
    was set in this session and at containers that are prefixes of such paths; nothing is rolled back. *)
 Theorem C13_frame :
-  forall var reg g r shared ops id f st' evs, fixed var -> forallb plain ops = true ->
+  forall var reg g r shared ops id f st' evs, fixed var -> forallb inv_ok ops = true ->
   let st := run var reg g (init_state_gen r shared) ops in
   do_commit var reg g st id f = (st', ROk, evs) ->
   exists s, find_session (sessions (expire st)) id = Some s /\ s_changes s <> [] /\
@@ -110,7 +111,7 @@ Print Assumptions C13_obj_set_replaces.
 
 (* ... and exactly: the previous running configuration with the session's Sets replayed in order *)
 Theorem C13_commit_publishes_replay :
-  forall var reg g r shared ops id f st' evs, fixed var -> forallb plain ops = true ->
+  forall var reg g r shared ops id f st' evs, fixed var -> forallb inv_ok ops = true ->
   let st := run var reg g (init_state_gen r shared) ops in
   do_commit var reg g st id f = (st', ROk, evs) ->
   exists s, find_session (sessions (expire st)) id = Some s /\
@@ -128,7 +129,7 @@ Print Assumptions C13_commit_publishes_replay.
    without a commit: SaveStartup, ReloadFRR, ResetForRecovery, LoadFromDataplane, LoadVersions (and the
    start-up path, which is modelled as [OBoot] but is not [plain]). *)
 Theorem C13_isolation :
-  forall var reg g r shared ops o st' res evs, fixed var -> forallb plain ops = true -> plain o = true ->
+  forall var reg g r shared ops o st' res evs, fixed var -> forallb inv_ok ops = true -> plain o = true ->
   let st := run var reg g (init_state_gen r shared) ops in
   step var reg g st o = (st', res, evs) ->
   (persisted st' <> persisted st -> exists id f, o = OCommit id f /\ res = ROk) /\
@@ -139,7 +140,7 @@ Print Assumptions C13_isolation.
 (* a Set writes through the session's configuration object; in a reachable state no other slot holds that
    object, so running and startup do not change *)
 Theorem C13_set_invisible :
-  forall var reg g r shared ops id p v vf st' res, fixed var -> forallb plain ops = true ->
+  forall var reg g r shared ops id p v vf st' res, fixed var -> forallb inv_ok ops = true ->
   let st := run var reg g (init_state_gen r shared) ops in
   do_set var reg st id p v vf = (st', res) -> running st' = running st /\ startup st' = startup st.
 Proof.
@@ -151,7 +152,7 @@ Print Assumptions C13_set_invisible.
 (* SINGLE LOCK / NO SHARING.  In every reachable state there is at most one candidate session, it is the
    lock owner, without a session the lock is free, and the session's object is neither running nor startup. *)
 Theorem C13_single_lock :
-  forall var reg g r shared ops, fixed var -> forallb plain ops = true ->
+  forall var reg g r shared ops, fixed var -> forallb inv_ok ops = true ->
   let st := run var reg g (init_state_gen r shared) ops in
   (forall s1 s2, In s1 (sessions st) -> In s2 (sessions st) -> s1 = s2) /\
   (forall s, In s (sessions st) -> lock st = Some (s_id s)) /\
@@ -202,12 +203,32 @@ Theorem C13_boot_validates :
 Proof. exact boot_validates. Qed.
 Print Assumptions C13_boot_validates.
 
+(* ADMINISTRATIVE METHODS.  From ANY state, exactly what the three exported methods that are no session
+   operations do: SaveStartup makes startup a copy of running and writes the scrubbed file (or fails leaving the
+   file); ResetForRecovery empties running and drops sessions and lock, nothing persisted changes; ReloadFRR
+   touches the daemon only.  None of them needs or releases a session. *)
+Theorem C13_admin_effects :
+  forall g st,
+  (forall fl, let st' := fst (do_save_startup g st fl) in
+     running st' = running st /\ startup st' = running st /\ sessions st' = sessions st /\ lock st' = lock st /\
+     frr st' = frr st /\ vfiles st' = vfiles st /\ vmem st' = vmem st /\
+     sfile st' = (if fl then sfile st else Some (scrub g (running st))) /\
+     snd (do_save_startup g st fl) = (if fl then RSaveFail else ROk)) /\
+  (let st' := do_reset st in
+     running st' = empty_store /\ sessions st' = [] /\ lock st' = None /\ startup st' = startup st /\
+     sfile st' = sfile st /\ frr st' = frr st /\ vfiles st' = vfiles st /\ vmem st' = vmem st /\ next_id st' = next_id st) /\
+  (forall k, let '(st', r, evs) := do_reload_frr st k in
+     persisted st' = persisted st /\ sessions st' = sessions st /\ lock st' = lock st /\
+     (frr st' = frr st \/ frr st' = Some (running st)) /\ (r = ROk -> frr st' = Some (running st))).
+Proof. exact admin_effects. Qed.
+Print Assumptions C13_admin_effects.
+
 (* IDLE EXPIRY (conf.go:817-832).  Every API call first expires sessions idle for 15 min or longer.  In every
    reachable state: expiry touches no datastore and not the daemon; sessions that are not idle leave the
    whole state unchanged; an idle session disappears together with its lock, the next Create is granted and
    every call naming the expired session is refused. *)
 Theorem C13_idle_expiry :
-  forall var reg g r shared ops, fixed var -> forallb plain ops = true ->
+  forall var reg g r shared ops, fixed var -> forallb inv_ok ops = true ->
   let st := run var reg g (init_state_gen r shared) ops in
   (persisted (expire st) = persisted st /\ frr (expire st) = frr st) /\
   ((forall s, In s (sessions st) -> (s_idle s <? idle_limit)%N = true) -> expire st = st) /\
